@@ -1,6 +1,6 @@
 //! Isolation scenarios on the real file system (a fresh directory under /tmp per run):
 //!  1. cal level: two static_storage::file configurations sharing one directory; each creates
-//!     its storages, then lists.  `O listf <prefix> <suffix> <hint> <dir files> <own names> = <listed>`
+//!     its storages, then lists.  `O listf <prefix> <suffix> <hint> <dir files> <own names> <other prefixes> = <listed>`
 //!     (spec: listed = own names; model: extract_name_from_file over the directory content).
 //!  2. API level: two iceoryx2 `Config`s (same root, prefixes P1 / P2) creating nodes and
 //!     services and listing in each other's presence; printed as `O note ...` lines
@@ -31,7 +31,9 @@ fn cal_scenario(out: &mut Out, root: &str, tag: &str, p1: &[u8], p2: &[u8], sfx:
     let mut keep: Vec<Storage> = vec![];
     for (cfg, names) in [(&c1, names1), (&c2, names2)] {
         for n in names.iter() {
-            match guarded(|| Builder::new(&FileName::new(n).unwrap()).config(cfg).has_ownership(true).create(b"content")) {
+            // names that FileName::new rejects can only come from file_name()/entries(): same bytes, new_unchecked
+            let name = FileName::new(n).unwrap_or_else(|_| unsafe { FileName::new_unchecked(n) });
+            match guarded(|| Builder::new(&name).config(cfg).has_ownership(true).create(b"content")) {
                 Some(Ok(s)) => keep.push(s),
                 other => out.line(&format!("O note create-failed {} {} {:?}", tag, hex(n), other.map(|r| r.err()))),
             }
@@ -47,12 +49,13 @@ fn cal_scenario(out: &mut Out, root: &str, tag: &str, p1: &[u8], p2: &[u8], sfx:
             Some(Err(e)) => format!("err:{:?}", e),
             Some(Ok(l)) => { let mut l: Vec<Vec<u8>> = l.iter().map(|f| f.as_bytes().to_vec()).collect(); l.sort(); join_hex(&l) }
         };
-        out.line(&format!("O listf {} {} {} {} {} = {}", hex(p), hex(sfx), hex(dir.as_bytes()), join_hex(&files), join_hex(&own), obs));
+        let other: Vec<Vec<u8>> = [p1, p2].iter().filter(|q| **q != p).map(|q| q.to_vec()).collect();
+        out.line(&format!("O listf {} {} {} {} {} {} = {}", hex(p), hex(sfx), hex(dir.as_bytes()), join_hex(&files), join_hex(&own), join_hex(&other), obs));
         // does_exist of the other configuration's names through this configuration
         for (q, other) in [(p1, names1), (p2, names2)] {
             if q == p { continue; }
             for n in other.iter() {
-                let r = guarded(|| Storage::does_exist_cfg(&FileName::new(n).unwrap(), cfg));
+                let r = guarded(|| Storage::does_exist_cfg(&FileName::new(n).unwrap_or_else(|_| unsafe { FileName::new_unchecked(n) }), cfg));
                 out.line(&format!("O note cal-does-exist {} cfg={} name={} of={} -> {:?}", tag, hex(p), hex(n), hex(q), r));
             }
         }
@@ -84,12 +87,12 @@ fn api_scenario(out: &mut Out, root: &str, tag: &str, p1: &[u8], p2: &[u8]) {
                 CallbackProgression::Continue
             }));
             nodes.sort();
-            lines.push(format!("ISO {} nodes-listed-by-{} prefix={} -> {} [{}]", tag, who, String::from_utf8_lossy(if who == "1" { p1 } else { p2 }),
+            lines.push(format!("ISO {} nodes-listed-by-{} prefix={} other={} -> {} [{}]", tag, who, String::from_utf8_lossy(if who == "1" { p1 } else { p2 }), String::from_utf8_lossy(if who == "1" { p2 } else { p1 }),
                 match lr { None => "PANIC".to_string(), Some(r) => format!("{:?}", r.is_ok()) }, nodes.join(",")));
             let mut svcs: Vec<String> = vec![];
             let lr = guarded(|| ipc::Service::list(cfg, |d| { svcs.push(d.static_details.name().as_str().to_string()); CallbackProgression::Continue }));
             svcs.sort();
-            lines.push(format!("ISO {} services-listed-by-{} prefix={} -> {} [{}]", tag, who, String::from_utf8_lossy(if who == "1" { p1 } else { p2 }),
+            lines.push(format!("ISO {} services-listed-by-{} prefix={} other={} -> {} [{}]", tag, who, String::from_utf8_lossy(if who == "1" { p1 } else { p2 }), String::from_utf8_lossy(if who == "1" { p2 } else { p1 }),
                 match lr { None => "PANIC".to_string(), Some(r) => format!("{:?}", r.is_ok()) }, svcs.join(",")));
             for sn in ["svc-one", "svc-two"] {
                 let e = guarded(|| ipc::Service::does_exist(&sn.try_into().unwrap(), cfg, MessagingPattern::PublishSubscribe));
@@ -119,6 +122,14 @@ pub fn run(a: &Args, out: &mut Out) {
     cal_scenario(out, &root, "suffix-of-suffix", b"a_", b"b_", b".s", &[b"one"], &[b"three"], &[]);
     cal_scenario(out, &root, "stray-file", b"a_", b"b_", b".service", &[b"one"], &[b"three"], &[b"a_.service"]);
     cal_scenario(out, &root, "stray-file-dot", b"a_", b"b_", b".service", &[b"one"], &[b"three"], &[b"b_..service"]);
+    // names obtained from the unchecked conversions FilePath::file_name() / Path::entries()
+    {
+        let n1 = FilePath::new(b"d/x\\y").unwrap().file_name();
+        let n2 = Path::new(b"/tmp/..").unwrap().entries()[1];
+        out.line(&format!("O note unchecked-names file_name={} revalidates={:?} entry={} revalidates={:?}", hex(n1.as_bytes()), FileName::new(n1.as_bytes()).is_ok(), hex(n2.as_bytes()), FileName::new(n2.as_bytes()).is_ok()));
+        cal_scenario(out, &root, "unchecked-name-backslash", b"a_", b"b_", b".service", &[b"one", n1.as_bytes()], &[b"three"], &[]);
+        cal_scenario(out, &root, "unchecked-name-dotdot", b"a_", b"b_", b".service", &[b"one", n2.as_bytes()], &[b"three"], &[]);
+    }
     // API level
     if a.level >= 1 {
         api_scenario(out, &root, "api-disjoint", b"a_", b"b_");
